@@ -338,9 +338,9 @@ int main(int argc, char** argv)
         p.endpoints = 4;
         p.allowGarbage = false;
         p.bigSegmentHistories = 12;
-        return rc::gen::map(genFrameHistory(p), [](FrameHistory h) {
+        return rc::gen::exec([p]() {
             Case c;
-            c.hist = std::move(h);
+            c.hist = *range<int>(0, 9) == 0 ? *genLongGapHistory() : *genFrameHistory(p);
             return c;
         });
     };
